@@ -80,7 +80,7 @@ def parseFieldParameters (str : String) : FP :=
 mutual
 /-- the Go target types `parseField` distinguishes -/
 inductive ATy
-  | bool | int32 | int64 | bigInt | enum | bitString | octets | oid | str | rawValue | flag
+  | bool | int32 | int64 | bigInt | enum | bitString | octets | oid | str | rawValue | flag | time
   /-- `rawContent`: the first field has type `asn1.RawContent` (it is not listed in `fs`) -/
   | struct (rawContent : Bool) (fs : AFields)
   /-- `setName`: the slice type's name ends in "SET" -/
@@ -104,6 +104,7 @@ inductive AVal
   | str (wireTag : Nat) (s : Bytes)
   | raw (cls tag : Nat) (compound : Bool) (content full : Bytes)
   | flag (b : Bool)
+  | time (t : TimeVal)
   | struct (raw : Option Bytes) (fs : List AVal)
   | list (vs : List AVal)
   | absent (v : AVal)
@@ -124,6 +125,7 @@ def universalType : ATy → Bool × Nat × Bool
   | .octets => (false, tagOctetString, false)
   | .seqOf s _ => (false, if s then tagSet else tagSequence, true)
   | .str => (false, tagPrintableString, false)
+  | .time => (false, tagUTCTime, false)
 
 /-- `canHaveDefaultValue(v.Kind())` -/
 def ATy.intKind : ATy → Bool
@@ -142,6 +144,7 @@ def zeroVal : ATy → AVal
   | .str => .str 0 []
   | .rawValue => .raw 0 0 false [] []
   | .flag => .flag false
+  | .time => .time ⟨1, 1, 1, 0, 0, 0, 0, 0⟩
   | .struct _ fs => .struct none (zeroVals fs)
   | .seqOf _ _ => .list []
 def zeroVals : AFields → List AVal
@@ -163,6 +166,7 @@ def isZero : AVal → Bool
   | .int i => i == 0
   | .str _ s => s.isEmpty
   | .flag b => !b
+  | .time t => t == ⟨1, 1, 1, 0, 0, 0, 0, 0⟩
   | .struct raw fs => (raw.getD []).isEmpty && allZero fs
   | _ => false
 where allZero : List AVal → Bool
@@ -244,6 +248,7 @@ def header (d : Dialect) (t : ATy) (p : FP) (bs : Bytes) : Except Err Hdr :=
           if tl.cls = 0 then (if isOtherStringTag tl.tag then tl.tag else utag0)
           else if p.stringType ≠ 0 then p.stringType else utag0
         else utag0
+      let utag1 := if utag1 = tagUTCTime ∧ tl.tag = tagGeneralizedTime ∧ tl.cls = 0 then tagGeneralizedTime else utag1
       let utag := if p.set then tagSet else utag1
       let (expCls, expTag, matchAnyCT) := expected p matchAny utag
       if (!matchAnyCT && (tl.cls != expCls || tl.tag != expTag)) || (!matchAny && tl.compound != compoundType) then miss
@@ -313,6 +318,14 @@ def parseLeaf (d : Dialect) (m : Mode) (t : ATy) (p : FP) (tl : TL) (utag : Nat)
   | .int32 => (parseInt32 lax inner).map .int
   | .int64 => (parseInt64 lax inner).map .int
   | .octets => .ok (.octets inner)
+  | .time =>
+    match (if utag = tagUTCTime then parseUTCTime inner else parseGeneralizedTime d inner) with
+    | .error e => .error e
+    | .ok tv =>
+      let gen := p.timeType = tagGeneralizedTime ∨ outsideUTCRange tv
+      if m.isCanon && !((tl.cls != 0 || utag == (if gen then tagGeneralizedTime else tagUTCTime)) &&
+          inner == (if gen then encGeneralizedTime tv else encUTCTime tv)) then .error .other
+      else .ok (.time tv)
   | .str =>
     match parseStringByTag lax utag inner with
     | .error e => .error e
@@ -328,8 +341,9 @@ def canonParams (t : ATy) (p : FP) : Bool :=
   let isSeq := match t with | .struct _ _ => true | .seqOf s _ => !s | _ => false
   let isStr := match t with | .str => true | _ => false
   let isRaw := match t with | .rawValue => true | _ => false
+  let isTime := match t with | .time => true | _ => false
   isRaw ||
-  ((!p.set || isSeq) && (p.stringType == 0 || isStr) && p.timeType == 0 &&
+  ((!p.set || isSeq) && (p.stringType == 0 || isStr) && (p.timeType == 0 || isTime) &&
    (match p.tag with
     | none => true
     | some _ => if p.explicit then marshalClass p == (if p.application then 1 else 2)
@@ -419,6 +433,7 @@ def marshalLeafBody (t : ATy) (p : FP) (v : AVal) : Except Err Bytes :=
   | .int64, .int i => .ok (intBytes i)
   | .enum, .int i => .ok (intBytes i)
   | .octets, .octets b => .ok b
+  | .time, .time t => .ok (if p.timeType = tagGeneralizedTime ∨ outsideUTCRange t then encGeneralizedTime t else encUTCTime t)
   | .str, .str _ s => if marshalStringOK p s then .ok s else .error .structural
   | _, _ => .error .other
 
@@ -446,9 +461,12 @@ def marshalShell (t : ATy) (p : FP) (v : AVal) (body : AVal → Except Err Bytes
     | .rawValue, .raw cls tag compound content full =>
       if !full.isEmpty then .ok full else .ok (wrapHeader cls compound tag content)
     | .rawValue, _ => .error .other
-    | _, v =>
+    | _, v' =>
       let (_, tag0, isCompound) := universalType t
-      if p.timeType ≠ 0 then .error .structural
+      -- a nil *big.Int (`makeBigInt`: "empty integer")
+      if (match t, v with | .bigInt, .absent _ => true | _, _ => false) then .error .structural else
+      let v := v'
+      if p.timeType ≠ 0 && tag0 ≠ tagUTCTime then .error .structural
       else if p.stringType ≠ 0 && tag0 ≠ tagPrintableString then .error .structural
       else
         let tag1 : Except Err Nat :=
@@ -458,6 +476,7 @@ def marshalShell (t : ATy) (p : FP) (v : AVal) (body : AVal → Except Err Bytes
               (if s.all (fun b => b.toNat < 128 && isPrintable b false false) then .ok tagPrintableString
                else if utf8Valid s then .ok tagUTF8String else .error .other)
             else .ok p.stringType
+          | .time, .time tv => .ok (if p.timeType = tagGeneralizedTime ∨ outsideUTCRange tv then tagGeneralizedTime else tagUTCTime)
           | _, _ => .ok tag0
         match tag1 with
         | .error e => .error e
